@@ -1,6 +1,6 @@
 use std::{borrow::Cow, fmt::Display, iter::Peekable, vec::IntoIter};
 
-use miette::Result;
+use miette::{bail, Result};
 
 use crate::{
     air::{Air, AirStmt, ImmediateOrReg, RawWord},
@@ -242,7 +242,14 @@ impl AsmParser {
                 break;
             }
 
-            self.line += 1;
+            self.line = match self.line.checked_add(1) {
+                Some(line) => line,
+                // Statement numbers (and addresses) are 16 bits wide
+                None if self.toks.peek().is_some() => {
+                    bail!("Program is too long: it does not fit in the 16-bit address space")
+                }
+                None => break,
+            };
         }
         Ok(self.air)
     }
